@@ -697,6 +697,9 @@ def lemma_L5(prog, res):
     fl = z3.BitVec("file_len", 64)
     n_ok = n_err = 0
     no_panic_summary(res, "minimal_parse", bp)
+    bad = [p for p in bp if p["status"] != "ok"]
+    res.add("C05.open_reports_unfit_tables_as_errors_not_panics", "violated" if bad else "holds",
+            f"{bad[0]['status']} (e.g. unchecked size arithmetic); decisions={bad[0]['decisions'][:30]}" if bad else f"{len(bp)} paths")
     for p in bp:
         if p["status"] != "ok":
             continue
@@ -798,7 +801,7 @@ def mk_bytes_file(ctx, cls, st):
     return Agg([mk_ehdr(cls), Slice(ctx.env["file"], bv(0), ctx.env["file_len"]), tab(st["sh"]), tab(st["ph"])], "ElfBytes")
 
 
-def mk_stream_file(ctx, cls, st):
+def mk_stream_file(ctx, cls, st, empty_cache=False):
     e = Opaque("endian", data="E")
     c = Enum(cls, [], "Class")
 
@@ -806,11 +809,11 @@ def mk_stream_file(ctx, cls, st):
         if sl is None:
             return model.Collected("empty", Slice(Buffer(bv(0), "zeros"), bv(0), bv(0)), None, None)
         return model.Collected(ty, sl, c, e)
-    cr = model.mk_caching_reader(ctx)
+    cr = model.mk_caching_reader(ctx, empty_cache=empty_cache)
     return Agg([mk_ehdr(cls), vec(st["sh"], "SectionHeader"), vec(st["ph"], "ProgramHeader"), cr], "ElfStream")
 
 
-def run_file_method(prog, side, method, cls, with_sections, with_segments, fault_free=True, extra_args=None, tag=None, scope=None, k_sh=None, k_ph=None, kmin_sh=None):
+def run_file_method(prog, side, method, cls, with_sections, with_segments, fault_free=True, extra_args=None, tag=None, scope=None, k_sh=None, k_ph=None, kmin_sh=None, empty_cache=False):
     solver = new_solver()
     stats = dict(queries=0, paths=0)
     fn = prog.find(("ElfBytes" if side == "bytes" else "ElfStream", method))
@@ -826,7 +829,7 @@ def run_file_method(prog, side, method, cls, with_sections, with_segments, fault
         if kmin_sh:
             ctx.env["Kmin_sh"] = kmin_sh
         st = table_state(ctx, cls, with_sections, with_segments)
-        obj = mk_bytes_file(ctx, cls, st) if side == "bytes" else mk_stream_file(ctx, cls, st)
+        obj = mk_bytes_file(ctx, cls, st) if side == "bytes" else mk_stream_file(ctx, cls, st, empty_cache=empty_cache)
         ctx.env["obj"] = obj
         ctx.env["tables"] = st
         if scope is not None:
@@ -859,6 +862,9 @@ LOOPED = [
     ("symbol_version_table", True),
     ("section_header_by_name", False),
 ]
+# symbol_version_table needs three sections to have .gnu.version, _r and _d together: its fault-free stream/slice pairing runs on
+# tables of up to 3 entries; the fault-schedule run stays at 2 entries (path count)
+K_OF = {"symbol_version_table": 3}
 
 
 def query_arg():
@@ -914,8 +920,10 @@ def lemma_L7(prog, res, classes=("ELF64",)):
                 name = f"{method}[{cls},{'sections' if ws else 'segments only'}]"
                 xa = query_arg if method == "section_header_by_name" else None
                 try:
-                    sp, _, sst = run_file_method(prog, "stream", method, cls, ws, wp, scope=no_compressed_sections(cls), extra_args=xa)
-                    bp, _, bst = run_file_method(prog, "bytes", method, cls, ws, wp, scope=no_compressed_sections(cls), extra_args=xa)
+                    # with 3-entry tables the stream side starts from the (freshly opened) empty cache: an arbitrary cache pre-state
+                    # multiplies every range load by its hit/miss alternatives; arbitrary pre-states are covered by the 2-entry run below
+                    sp, _, sst = run_file_method(prog, "stream", method, cls, ws, wp, scope=no_compressed_sections(cls), extra_args=xa, k_sh=K_OF.get(method), empty_cache=bool(K_OF.get(method)))
+                    bp, _, bst = run_file_method(prog, "bytes", method, cls, ws, wp, scope=no_compressed_sections(cls), extra_args=xa, k_sh=K_OF.get(method))
                     fp, fsol, fst = run_file_method(prog, "stream", method, cls, ws, wp, fault_free=False, tag="sf" + method[:5], scope=no_compressed_sections(cls), extra_args=xa)
                 except sym.Unsupported as u:
                     res.add(f"L7.encode({name})", "inconclusive", str(u))
@@ -924,7 +932,12 @@ def lemma_L7(prog, res, classes=("ELF64",)):
                     res.stats["queries"] += st["queries"]
                     res.stats["paths"] += st["paths"]
                 if method == "section_headers_with_strtab":
+                    n_before = len(res.obligations)
                     pair_compare(res, name, sp, bp, exact, strtab_pair_stream, strtab_pair_bytes)
+                    # the same verdicts under C05: the stream parser resolves the section-name string table like the slice parser
+                    for o in list(res.obligations[n_before:]):
+                        if o["name"].startswith("C07."):
+                            res.add(o["name"].replace("C07.", "C05.stream_shstrtab_", 1), o["status"], o["detail"], o.get("model"))
                 else:
                     pair_compare(res, name, sp, bp, exact)
                 for p in sp + fp:
@@ -1450,3 +1463,14 @@ def crosscheck_cvc5(res):
             unknown += 1
     res.add("XCHECK.cvc5_agrees_with_z3", "holds" if disagree == 0 and agree > 0 else ("inconclusive" if agree == 0 else "violated"),
             f"{agree} sampled queries re-decided identically by cvc5, {unknown} cvc5 timeouts/unknown, {disagree} disagreements")
+
+
+
+def lemma_L7strtab(prog, res):
+    global LOOPED
+    saved = LOOPED
+    LOOPED = [("section_headers_with_strtab", False)]
+    try:
+        lemma_L7(prog, res)
+    finally:
+        LOOPED = saved
